@@ -274,3 +274,42 @@ theorem io_tables :
   decide
 
 end GenEq
+
+/-! ## flux.py -/
+
+namespace GenEq
+
+def outcomeCode : Flux.Outcome → Int
+  | .ok => 0 | .wavelengthDim => 1 | .wavelengthMissing => 2 | .spatialDim => 3 | .spatialMissing => 4
+  | .bmajDim => 5 | .bmajMissing => 6 | .bminDim => 7 | .bminMissing => 8 | .unsupported => 9 | .outputUnit => 10
+
+def familyCode : Flux.Dim → Int
+  | .fnu => 101 | .flambda => 102 | .surf => 103 | .perBeam => 104 | .temp => 105 | _ => 0
+
+/-- `compute_flux`, as far as its control flow goes, is the model's error table `Flux.outcome`: the same check fires
+first for every combination of input family, present / absent / mis-dimensioned metadata items and output unit, and
+when none fires the conversion of the input's own family is the one that produces the result -/
+theorem flux_table_eq (input output : Flux.Dim) (m : Flux.MetaDims) :
+    Gen.flux_table (input == .fnu) (input == .flambda) (input == .surf) (input == .perBeam) (input == .temp)
+        m.wavelength.isSome (m.wavelength == some .length)
+        (m.wavelength == some .length || m.wavelength == some .freq)
+        m.spatial.isSome (m.spatial == some .angle) m.bmaj.isSome (m.bmaj == some .angle)
+        m.bmin.isSome (m.bmin == some .angle) (output == .fnu)
+      = (if Flux.outcome input m output = .ok then familyCode input
+         else outcomeCode (Flux.outcome input m output)) := by
+  obtain ⟨w, s, a, b⟩ := m
+  have hchk : ∀ (x : Option Flux.Dim) (e1 e2 : Flux.Outcome),
+      Flux.checkAngle x e1 e2 = if x.isSome && !(x == some .angle) then some e1 else if !x.isSome then some e2 else none := by
+    intro x e1 e2
+    rcases x with _ | d
+    · rfl
+    · cases d <;> rfl
+  have hw : w = none ∨ ∃ d, w = some d := by cases w <;> simp
+  rcases hw with rfl | ⟨d, rfl⟩ <;> (try cases d) <;> cases input <;> by_cases ho : output = Flux.Dim.fnu <;>
+    simp [Gen.flux_table, Flux.outcome, Flux.metaCheck, hchk, familyCode, outcomeCode, ho, Option.orElse] <;>
+    (try generalize s.isSome = s1) <;> (try generalize (s == some Flux.Dim.angle) = s2) <;>
+    (try generalize a.isSome = a1) <;> (try generalize (a == some Flux.Dim.angle) = a2) <;>
+    (try generalize b.isSome = b1) <;> (try generalize (b == some Flux.Dim.angle) = b2) <;>
+    grind
+
+end GenEq
